@@ -319,7 +319,20 @@ def inst_lang_file(rng):
             k, a = "nfa", ab.nfa(A)
         return {"family": "lang_file", "kind": k, "ans": a, "refkind": "dfa", "ref": ab.dfa(D), "length": length,
                 "verdict": v, "cex": cex, "exc": exc, "out": ab.enc(out), "illformed": False}
-    return D, submit, dfa_mutants(D, rng, 3) + [("nfa", N)]
+    # history: the same reference FILE is used again with another length bound
+    length2 = 5 if length == 2 else 2
+
+    def submit_other_length(A):
+        nonlocal length
+        keep = length
+        length = length2
+        try:
+            return submit(A)
+        finally:
+            length = keep
+    muts = dfa_mutants(D, rng, 3) + [("nfa", N)]
+    raws = [("other_length/%d" % i, (lambda M=M: submit_other_length(M))) for i, (_, M) in enumerate(muts[:3])]
+    return D, submit, muts, raws
 
 
 def inst_accepts_rejects(rng):
@@ -582,6 +595,8 @@ def events_for(fam, seed, want):
         r, exc = guarded(fn, 60)
         if exc != "none":
             continue
-        r.update({"op": "check", "mutation": "raw/" + name, "src": dict(src, mutation="raw/" + name), "has_cex": False,
-                  "cex": {"word": [], "polarity": "none", "minimal": False}})
+        keep = (not r.get("illformed")) and r.get("cex") is not None
+        r.update({"op": "check", "mutation": "raw/" + name, "src": dict(src, mutation="raw/" + name), "has_cex": keep})
+        if not keep:
+            r["cex"] = {"word": [], "polarity": "none", "minimal": False}
         yield r
